@@ -59,7 +59,7 @@ def render(ad, refcase="decl", always_rename=False, libref_same="present", bus=N
         if comments:
             w('  (comment "library comment")')
         for d in lib["defs"]:
-            w("  (cell %s (cellType GENERIC)" % namedef(d, always_rename))
+            w("  (cell %s (cellType %s)" % (namedef(d, always_rename), "TIE" if rich and not d.get("insts") and not d.get("nets") and d is lib["defs"][0] else "GENERIC"))
             if rich:
                 w('   (status (written (timeStamp 2021 2 3 4 5 7)))')
                 w('   (property CELLP (string "on the cell"))')
@@ -80,7 +80,13 @@ def render(ad, refcase="decl", always_rename=False, libref_same="present", bus=N
                     w("     (port %s%s)" % (namedef(p, always_rename), dr))
             if comments:
                 w('     (comment "interface comment")')
+            if rich:
+                w('     (designator "D1")')
+                w('     (property IFP (string "on the interface"))')
             w("    )")
+            if rich:
+                w('    (status (written (timeStamp 2021 2 3 4 5 8)))')
+                w('    (comment "view comment" "second string")')
             if d.get("insts") or d.get("nets"):
                 w("    (contents")
                 iid = {}
